@@ -137,6 +137,7 @@ func runC16(c *core.Ctx) {
 	c.Rule("R4", "token counter and appended tokens agree on every path of the placement loop", 1)
 	c.Rule("R5", "the zone index is the zone's position in the sorted zone list, whatever order the zones are configured in; an unknown zone is refused", 2)
 	c.Rule("R6", "the instance index is the trailing number of the instance id: anchored pattern ending in the digits group, whose submatch is what is parsed", 2)
+	c.Rule("R7", "a Peek() pointer into a priority queue is never used after a reordering operation on that queue without a fresh Peek", 2)
 	pkg := c.Prog.Pkg("ring")
 	if pkg == nil {
 		c.Miss("R1", "pkg=ring", "not loaded")
@@ -144,6 +145,7 @@ func runC16(c *core.Ctx) {
 	}
 	c16ZoneIndex(c, pkg)
 	c16Identity(c, pkg)
+	c16StalePeek(c, pkg)
 	root := an.FindFunc(pkg, "SpreadMinimizingTokenGenerator.GenerateTokens")
 	if root == nil {
 		c.Miss("R1", "func=SpreadMinimizingTokenGenerator.GenerateTokens", "not found")
@@ -616,5 +618,130 @@ func c16Identity(c *core.Ctx, pkg *packages.Package) {
 		c.Check(okArg, "R6", "func=parseInstanceID", fn.Pos(), fmt.Sprintf("the index is parsed from the last submatch (group %d) of the match on the whole id: %s", groups, detail), 1)
 	} else {
 		c.Miss("R6", "func=parseInstanceID", "not found")
+	}
+}
+
+// c16StalePeek (R7): Peek() of the ownership priority queue returns a POINTER into the queue's backing array
+// (the root element). Any operation that reorders or resizes that queue (container/heap Pop, Push, Fix, Init,
+// Remove, or the queue's own Push/Pop/Swap) makes the pointer refer to a different element. No use of such a
+// pointer may therefore be reachable from a reordering operation on the same queue without the pointer being
+// re-read in between. (The generator sets the highest-ownership instance aside by popping it: reading it through
+// the stale pointer after the pop yields the NEW root — one instance is lost, another is queued twice, and the
+// ownership spread grows without bound, while tokens stay unique and sorted.)
+func c16StalePeek(c *core.Ctx, pkg *packages.Package) {
+	n := 0
+	for _, top := range an.Funcs(pkg) {
+		if strings.HasSuffix(c.Prog.Fset.Position(top.Pos()).Filename, ".pb.go") {
+			continue
+		}
+		for _, fn := range append([]*an.Fn{top}, top.AllLits()...) {
+			info := fn.Info()
+			// pointer variables defined by q.Peek()
+			type peek struct {
+				ptr, queue types.Object
+				defs       []ast.Node
+			}
+			peeks := map[types.Object]*peek{}
+			fn.InspectShallow(func(nd ast.Node) bool {
+				as, ok := nd.(*ast.AssignStmt)
+				if !ok || len(as.Lhs) != 1 || len(as.Rhs) != 1 {
+					return true
+				}
+				call, ok := an.Unparen(as.Rhs[0]).(*ast.CallExpr)
+				if !ok {
+					return true
+				}
+				sel, ok := call.Fun.(*ast.SelectorExpr)
+				if !ok || sel.Sel.Name != "Peek" {
+					return true
+				}
+				if t := info.TypeOf(sel.X); t == nil || !strings.Contains(t.String(), "ownershipPriorityQueue") {
+					return true
+				}
+				p, q := fn.ObjOf(as.Lhs[0]), fn.ObjOf(sel.X)
+				if p == nil || q == nil {
+					return true
+				}
+				if peeks[p] == nil {
+					peeks[p] = &peek{ptr: p, queue: q}
+				}
+				if peeks[p].queue != q {
+					peeks[p].queue = nil // same variable peeks different queues: undecided below
+				}
+				peeks[p].defs = append(peeks[p].defs, as)
+				return true
+			})
+			if len(peeks) == 0 {
+				continue
+			}
+			g := fn.Graph()
+			for _, pk := range peeks {
+				n++
+				key := fmt.Sprintf("peek:func=%s:var=%s", fn.Name, pk.ptr.Name())
+				if pk.queue == nil {
+					c.Undec("R7", key, pk.defs[0].Pos(), "one variable holds Peek() results of different queues")
+					continue
+				}
+				// reordering operations on the queue
+				var reorders []ast.Node
+				for _, call := range fn.Calls(false) {
+					f := call.Func()
+					if f == nil || len(call.Expr.Args) == 0 && f.Pkg() != nil && f.Pkg().Path() == "container/heap" {
+						continue
+					}
+					onQueue := func(e ast.Expr) bool {
+						e = an.Unparen(e)
+						if u, ok := e.(*ast.UnaryExpr); ok && u.Op == token.AND {
+							e = an.Unparen(u.X)
+						}
+						return fn.ObjOf(e) == pk.queue
+					}
+					if f.Pkg() != nil && f.Pkg().Path() == "container/heap" {
+						switch f.Name() {
+						case "Pop", "Push", "Fix", "Init", "Remove":
+							if len(call.Expr.Args) > 0 && onQueue(call.Expr.Args[0]) {
+								reorders = append(reorders, call.Expr)
+							}
+						}
+						continue
+					}
+					if sel, ok := call.Expr.Fun.(*ast.SelectorExpr); ok && onQueue(sel.X) {
+						switch f.Name() {
+						case "Pop", "Push", "Swap", "Add":
+							reorders = append(reorders, call.Expr)
+						}
+					}
+				}
+				var defLocs []an.Loc
+				for _, d := range pk.defs {
+					defLocs = append(defLocs, g.Locate(d))
+				}
+				// uses of the pointer (not its definitions)
+				var bad []string
+				uses := 0
+				fn.InspectShallow(func(nd ast.Node) bool {
+					id, ok := nd.(*ast.Ident)
+					if !ok || info.Uses[id] != pk.ptr {
+						return true
+					}
+					uses++
+					ul := g.Locate(id)
+					for _, r := range reorders {
+						rl := g.Locate(r)
+						if rl == ul {
+							continue // the use is an argument of the reordering call itself (evaluated before it)
+						}
+						if g.ReachAvoiding(rl, ul, defLocs) {
+							bad = append(bad, fmt.Sprintf("%s used at %s after %s at %s", pk.ptr.Name(), c.Prog.PosStr(id.Pos()), types.ExprString(r.(*ast.CallExpr).Fun), c.Prog.PosStr(r.Pos())))
+						}
+					}
+					return true
+				})
+				c.Check(len(bad) == 0, "R7", key, pk.defs[0].Pos(), fmt.Sprintf("%s = %s.Peek() points into the queue's storage: %d uses, %d reordering operations on that queue, uses reachable from a reordering without a fresh Peek: %v", pk.ptr.Name(), pk.queue.Name(), uses, len(reorders), bad), uses*max(1, len(reorders)))
+			}
+		}
+	}
+	if n < 2 {
+		c.Undec("R7", "peek:count", pkg.Syntax[0].Pos(), fmt.Sprintf("expected ≥ 2 Peek() pointers in the generator, found %d", n))
 	}
 }
